@@ -79,6 +79,38 @@ Proof.
     + intro Hin. apply in_map_iff in Hin. destruct Hin as [a [E _]]. lia.
 Qed.
 
+(* ---- insertion sort keeps the elements and duplicate-freeness ---- *)
+Lemma in_insert : forall a l x, In x (insert a l) <-> x = a \/ In x l.
+Proof.
+  induction l as [|h t IH]; intros x; simpl.
+  - intuition.
+  - destruct (Nat.leb a h); simpl; [intuition|]. rewrite IH. intuition.
+Qed.
+
+Lemma in_sort : forall l x, In x (sort l) <-> In x l.
+Proof.
+  induction l as [|a l IH]; intros x; simpl; [tauto|].
+  unfold sort in *. simpl. rewrite in_insert, IH. intuition.
+Qed.
+
+Lemma NoDup_insert : forall a l, ~ In a l -> NoDup l -> NoDup (insert a l).
+Proof.
+  induction l as [|h t IH]; intros Hn Hnd; simpl.
+  - constructor; [simpl; tauto|constructor].
+  - destruct (Nat.leb a h).
+    + constructor; assumption.
+    + inversion Hnd; subst. constructor.
+      * rewrite in_insert. intros [E|Hin]; [subst; apply Hn; left; reflexivity|contradiction].
+      * apply IH; auto. intro; apply Hn; right; assumption.
+Qed.
+
+Lemma NoDup_sort : forall l, NoDup l -> NoDup (sort l).
+Proof.
+  induction l as [|a l IH]; intros H; simpl; [constructor|].
+  inversion H; subst. unfold sort in *. simpl. apply NoDup_insert; [|apply IH; assumption].
+  intro Hin. apply (in_sort l a) in Hin. contradiction.
+Qed.
+
 Section GUProofs.
 Variable K : Type.
 Variables (k0 k1 : K) (kadd kmul ksub : K -> K -> K) (kopp : K -> K).
@@ -95,22 +127,28 @@ Notation g_denote := (g_denote K k0 kadd kmul).
 Notation g_run := (g_run K k0 k1 kadd kmul).
 Notation g_step := (g_step K k0 kadd kmul).
 
-(* a command the compiler accepts, well-shaped, on modes of the enumeration, without dagger flag *)
+(* a command the compiler accepts, well-shaped, on modes of the enumeration (any dagger flag) *)
 Definition gu_wf (enum : list nat) (c : gu_cmd) : Prop :=
-  NoDup (gm K c) /\ incl (gm K c) enum /\ gd K c = false /\
-  (if Nat.eqb (gk K c) 0 then length (gm K c) = 1 else length (gu_block false c) = 2 * length (gm K c)).
+  NoDup (gm K c) /\ incl (gm K c) enum /\
+  (if Nat.eqb (gk K c) 0 then length (gm K c) = 1 else length (gu_block (gd K c) c) = 2 * length (gm K c)).
+
+Lemma gu_wf_sort : forall used c, gu_wf used c -> gu_wf (sort used) c.
+Proof.
+  intros used c [H1 [H2 H3]]. split; [assumption|]. split; [|assumption].
+  intros x Hx. apply in_sort. apply H2. assumption.
+Qed.
 
 Lemma gu_step_generic : forall enum acc c, gu_wf enum c ->
   gu_step enum acc c = g_step (coords enum) acc (gu_sem c).
 Proof.
-  intros enum acc c [Hnd [Hincl [Hd Hshape]]].
-  unfold Model.gu_step, Model.gu_sem. rewrite Hd.
+  intros enum acc c [Hnd [Hincl Hshape]].
+  unfold Model.gu_step, Model.gu_sem.
   destruct (gk K c) as [|n]; simpl; rewrite gu_slots_coords by assumption; reflexivity.
 Qed.
 
 Lemma gu_wf_generic : forall enum c, gu_wf enum c -> wf_gcmd K (coords enum) (gu_sem c).
 Proof.
-  intros enum c [Hnd [Hincl [Hd Hshape]]]. unfold Model.gu_sem. rewrite Hd.
+  intros enum c [Hnd [Hincl Hshape]]. unfold Model.gu_sem.
   destruct (gk K c) as [|n]; simpl in *.
   - split; [apply NoDup_coords; assumption|]. split; [apply incl_coords; assumption|].
     rewrite coords_length, Hshape. reflexivity.
@@ -151,13 +189,21 @@ Proof.
   - rewrite find_pos_notin by assumption. symmetry. apply Hout. assumption.
 Qed.
 
-(* What compile returns uses ord_reg = the sorted registers. *)
-Theorem gu_correct : forall enum cmds st,
-  NoDup enum -> Forall (gu_wf enum) cmds -> sort enum = enum ->
-  forall x, g_denote (gu_output K (gu_compile enum cmds)) st x = g_denote (map gu_sem cmds) st x.
+(* What compile returns: used_modes = sorted(set(...)), ord_reg sorted.  For EVERY enumeration `used`
+   that the set may produce and every dagger flag, the compiled program acts as the source. *)
+Theorem gu_correct : forall used cmds st,
+  NoDup used -> Forall (gu_wf used) cmds ->
+  forall x, g_denote (gu_output K (gu_compile used cmds)) st x = g_denote (map gu_sem cmds) st x.
 Proof.
-  intros enum cmds st Hnd Hwf Hs x. unfold Model.gu_compile. rewrite Hs. apply gu_correct_enum; assumption.
+  intros used cmds st Hnd Hwf x. unfold Model.gu_compile. apply gu_correct_enum.
+  - apply NoDup_sort. assumption.
+  - eapply Forall_impl; [|exact Hwf]. intros c Hc. apply gu_wf_sort. assumption.
 Qed.
+
+(* the result does not depend on the enumeration at all: only on the set *)
+Theorem gu_compile_order_independent : forall used used' cmds,
+  sort used = sort used' -> gu_compile used cmds = gu_compile used' cmds.
+Proof. intros used used' cmds E. unfold Model.gu_compile. rewrite E. reflexivity. Qed.
 
 End GUProofs.
 
@@ -198,10 +244,16 @@ Notation g_step := (g_step CK z ca cm).
 Notation Cth := (C_ring K k0 k1 kadd kmul ksub kopp Kth).
 
 Definition pa_wf (enum : list nat) (c : pa_cmd K) : Prop :=
-  NoDup (pm K c) /\ incl (pm K c) enum /\ pd K c = false /\ length (pa_block false c) = length (pm K c).
+  NoDup (pm K c) /\ incl (pm K c) enum /\ length (pa_block (pd K c) c) = length (pm K c).
 
 Lemma pa_wf_generic : forall enum c, pa_wf enum c -> wf_gcmd CK enum (pa_sem c).
-Proof. intros enum c [H1 [H2 [H3 H4]]]. unfold Model.pa_sem. rewrite H3. simpl. auto. Qed.
+Proof. intros enum c [H1 [H2 H4]]. unfold Model.pa_sem. simpl. auto. Qed.
+
+Lemma pa_wf_sort : forall used c, pa_wf used c -> pa_wf (sort used) c.
+Proof.
+  intros used c [H1 [H2 H3]]. split; [assumption|]. split; [|assumption].
+  intros x Hx. apply in_sort. apply H2. assumption.
+Qed.
 
 Lemma pa_run_generic : forall enum cmds, Forall (pa_wf enum) cmds ->
   pa_run enum cmds = fst (g_run enum (map pa_sem cmds)).
@@ -210,10 +262,9 @@ Proof.
   generalize (zeros CK z (length enum)). generalize (identity CK z o (length enum)).
   induction cmds as [|c cmds IH]; intros T r; cbn [fold_left map]; [reflexivity|].
   inversion Hwf; subst.
-  destruct H1 as [_ [_ [Hd _]]].
   assert (E : g_step enum (T, r) (pa_sem c) =
-              (pa_step enum T c, rowop_vec CK z ca cm (pa_block false c) (pa_slots enum (pm K c)) r)).
-  { unfold Model.pa_sem. rewrite Hd. reflexivity. }
+              (pa_step enum T c, rowop_vec CK z ca cm (pa_block (pd K c) c) (pa_slots enum (pm K c)) r)).
+  { unfold Model.pa_sem. reflexivity. }
   rewrite E. apply IH. assumption.
 Qed.
 
@@ -291,11 +342,13 @@ Proof.
   - rewrite find_pos_notin by assumption. symmetry. apply Hout. assumption.
 Qed.
 
-Theorem pa_correct : forall enum cmds st,
-  NoDup enum -> Forall (pa_wf enum) cmds -> sort enum = enum ->
-  forall x, g_denote (pa_output K (pa_compile enum cmds)) st x = g_denote (map pa_sem cmds) st x.
+Theorem pa_correct : forall used cmds st,
+  NoDup used -> Forall (pa_wf used) cmds ->
+  forall x, g_denote (pa_output K (pa_compile used cmds)) st x = g_denote (map pa_sem cmds) st x.
 Proof.
-  intros enum cmds st Hnd Hwf Hs x. unfold Model.pa_compile. rewrite Hs. apply pa_correct_enum; assumption.
+  intros used cmds st Hnd Hwf x. unfold Model.pa_compile. apply pa_correct_enum.
+  - apply NoDup_sort. assumption.
+  - eapply Forall_impl; [|exact Hwf]. intros c Hc. apply pa_wf_sort. assumption.
 Qed.
 
 End PassiveProofs.
